@@ -1,14 +1,17 @@
 #!/usr/bin/env python3
 """Copies evaluated seeded changes from /tmp/seed/outNN/{a,b} into /verif/seeded/<Cnn>-<x>/ and prints the catch table."""
-import json, os, shutil, glob, re
+import json, os, shutil, glob, re, sys
+# usage: collect_seeds.py [base-dir] [suffix map, e.g. a=c,b=d]
+BASE = sys.argv[1] if len(sys.argv) > 1 else '/tmp/seed'
+REN = dict(x.split('=') for x in sys.argv[2].split(',')) if len(sys.argv) > 2 else {}
 rows = []
-for d in sorted(glob.glob('/tmp/seed/out*/[ab]')):
+for d in sorted(glob.glob(BASE + '/out*/[ab]')):
     try:
         res = json.load(open(os.path.join(d, 'result.json')))
         meta = json.load(open(os.path.join(d, 'meta.json')))
     except Exception as e:
         print('skip', d, e); continue
-    pid = meta['property']; x = os.path.basename(d)
+    pid = meta['property']; x = os.path.basename(d); x = REN.get(x, x)
     valid = res.get('demo_passes_without_patch') and res.get('demo_fails_with_patch') and res.get('suite_passes_with_patch')
     dst = f'/verif/seeded/{pid}-{x}'
     os.makedirs(dst, exist_ok=True)
